@@ -12,6 +12,11 @@ theorem ownedInv_init (nq ng max : Nat) : OwnedInv (initState nq ng max) := by
   split at hs <;> simp at hs
   subst hs; simp [QState.held] at hheld
 
+theorem ownedInv_initP (ps : List Bool) (ng max : Nat) : OwnedInv (initStateP ps ng max) := by
+  refine ⟨?_⟩
+  intro q st hs hheld
+  rcases qSt_initP hs with h | h <;> (rw [h] at hheld; simp [QState.held] at hheld)
+
 theorem ownedInv_setChild {s : State} (h : OwnedInv s) (p : Nat) (c : Option Nat) :
     OwnedInv (match s.acts[p]? with | some pv => s.setAct p { pv with child := c } | none => s) := by
   split
@@ -91,6 +96,7 @@ theorem ownedInv_ret {s s' : State} {a r : Nat} (h : OwnedInv s) (hs : retStep s
 theorem ownedInv_reachable {s : State} (hr : Reachable s) : OwnedInv s := by
   induction hr with
   | init nq ng max => exact ownedInv_init nq ng max
+  | initP ps ng max => exact ownedInv_initP ps ng max
   | step l hprev hstep ih =>
     have hh := holderInv_reachable hprev
     cases l with
